@@ -747,6 +747,330 @@ def check_range(run, mods, rnd, wd, hist, distinct):
     return files, shards, failures, stats
 
 
+# ---- simplify_boolean_expressions_symmath: translation validation ---------------------------------
+# formula terms: ("name", v) | ("cmp", v, op, c, flipped) | ("opq", i) | ("const", b) | ("not", f)
+#                | ("and", [f..]) | ("or", [f..])         (v indexes SVARS, op is a key of BOP_TXT)
+SVARS = ["x", "y", "z"]
+SBOX = range(-3, 6)          # strictly contains every constant used below ([-1, 3])
+
+
+def sf_text(f, top=True) -> str:
+    k = f[0]
+    if k == "name":
+        return SVARS[f[1]]
+    if k == "cmp":
+        _, v, op, c, fl = f
+        return f"{c} {BOP_TXT[op]} {SVARS[v]}" if fl else f"{SVARS[v]} {BOP_TXT[op]} {c}"
+    if k == "opq":
+        return f"o{f[1]}()"
+    if k == "const":
+        return "True" if f[1] else "False"
+    if k == "not":
+        return f"not {sf_text(f[1], False)}"
+    s = f" {k} ".join(sf_text(v, False) for v in f[1])
+    return s if top else f"({s})"
+
+
+def sf_coq(f) -> str:
+    k = f[0]
+    if k == "name":
+        return f"(PAtom (AName {f[1]}))"
+    if k == "cmp":
+        return f"(PAtom (ACmp {f[1]} {f[2]} {gz(f[3])} {gbool(f[4])}))"
+    if k == "opq":
+        return f"(PAtom (AOpq {f[1]}))"
+    if k == "const":
+        return f"(PConst {gbool(f[1])})"
+    if k == "not":
+        return f"(PNot {sf_coq(f[1])})"
+    # `a and b and c` is `a and (b and c)`: same value, same evaluation order
+    con = "PAnd" if k == "and" else "POr"
+    vs = f[1]
+    out = sf_coq(vs[-1])
+    for v in reversed(vs[:-1]):
+        out = f"({con} {sf_coq(v)} {out})"
+    return out
+
+
+_AST_BOP = {ast.Eq: "BEq", ast.NotEq: "BNe", ast.Gt: "BGt", ast.Lt: "BLt", ast.GtE: "BGe", ast.LtE: "BLe"}
+
+
+def _int_const(n):
+    if isinstance(n, ast.Constant) and type(n.value) is int:
+        return n.value
+    if isinstance(n, ast.UnaryOp) and isinstance(n.op, ast.USub) and isinstance(n.operand, ast.Constant) \
+            and type(n.operand.value) is int:
+        return -n.operand.value
+    return None
+
+
+def sf_of_ast(n) -> tuple:
+    """AST of a condition (input node or the rule's replacement) -> formula term; ValueError outside the language"""
+    if isinstance(n, ast.BoolOp):
+        return ("and" if isinstance(n.op, ast.And) else "or", [sf_of_ast(v) for v in n.values])
+    if isinstance(n, ast.UnaryOp) and isinstance(n.op, ast.Not):
+        return ("not", sf_of_ast(n.operand))
+    if isinstance(n, ast.Constant) and isinstance(n.value, bool):
+        return ("const", n.value)
+    if isinstance(n, ast.Name) and n.id in SVARS:
+        return ("name", SVARS.index(n.id))
+    if isinstance(n, ast.Call) and isinstance(n.func, ast.Name) and re.fullmatch(r"o\d", n.func.id) and not n.args:
+        return ("opq", int(n.func.id[1:]))
+    if isinstance(n, ast.Compare) and len(n.ops) == 1 and type(n.ops[0]) in _AST_BOP:
+        l, r = n.left, n.comparators[0]
+        if isinstance(l, ast.Name) and l.id in SVARS and _int_const(r) is not None:
+            return ("cmp", SVARS.index(l.id), _AST_BOP[type(n.ops[0])], _int_const(r), False)
+        if isinstance(r, ast.Name) and r.id in SVARS and _int_const(l) is not None:
+            return ("cmp", SVARS.index(r.id), _AST_BOP[type(n.ops[0])], _int_const(l), True)
+    raise ValueError("outside the formula language: " + ast.dump(n))
+
+
+def truth_tested(root) -> set:
+    """ids of the expression nodes of which only the truth value can be observed (the harness's own reading of
+    Python, independent of symbolic_math._truth_tested_nodes): tests of if / while / conditional expressions /
+    assert / comprehension filters, operands of `not`, unused expression statements, and operands of and/or in
+    such a position"""
+    work = []
+    for n in ast.walk(root):
+        if isinstance(n, (ast.If, ast.While, ast.IfExp, ast.Assert)):
+            work.append(n.test)
+        elif isinstance(n, ast.comprehension):
+            work += n.ifs
+        elif isinstance(n, ast.UnaryOp) and isinstance(n.op, ast.Not):
+            work.append(n.operand)
+        elif isinstance(n, ast.Expr):
+            work.append(n.value)
+    out = set()
+    while work:
+        n = work.pop()
+        out.add(id(n))
+        if isinstance(n, ast.BoolOp):
+            work += n.values
+    return out
+
+
+SYM_SHAPES = {          # how the formula is embedded; True = only its truth value is used
+    "assign": ("y = {f}\n", False), "if": ("if {f}:\n    pass\n", True), "ifexp": ("y = 1 if {f} else 2\n", True),
+    "not": ("y = not ({f})\n", True), "call": ("print({f})\n", False), "return": ("def g(x, y, z):\n    return {f}\n", False),
+    "while": ("while {f}:\n    break\n", True), "comp": ("y = [1 for _ in (1,) if {f}]\n", True),
+    "expr": ("{f}\n", True), "nested": ("y = ({f}) or x\n", False), "assert": ("assert {f}\n", True),
+}
+
+
+def sf_vars_used(f, acc=None):
+    """(variables compared with constants, variables used as bare operands, opaque calls)"""
+    acc = acc if acc is not None else (set(), set(), set())
+    if f[0] == "cmp":
+        acc[0].add(f[1])
+    elif f[0] == "name":
+        acc[1].add(f[1])
+    elif f[0] == "opq":
+        acc[2].add(f[1])
+    elif f[0] == "not":
+        sf_vars_used(f[1], acc)
+    elif f[0] in ("and", "or"):
+        for v in f[1]:
+            sf_vars_used(v, acc)
+    return acc
+
+
+NAME_BOX = [(0, 2), (0, 3), (0, 5)]     # a variable that is only used as a bare operand: zero / a value of its own
+
+
+def sym_pair_fails(f, g, ctx) -> str | None:
+    """the property's oracle on one (input, output) pair: CPython's value (or truth value where only that is
+    used) of both texts under every integer valuation of the box and every truth value of the opaque calls"""
+    a, b = compile(sf_text(f), "<in>", "eval"), compile(sf_text(g), "<out>", "eval")
+    cs, ns, os_ = set(), set(), set()
+    for h in (f, g):
+        u = sf_vars_used(h)
+        cs |= u[0]; ns |= u[1]; os_ |= u[2]
+    boxes = [SBOX if i in cs else NAME_BOX[i] if i in ns else (0,) for i in range(3)]
+    obox = [(False, True) if i in os_ else (False,) for i in range(2)]
+    for x, y, z in itertools.product(*boxes):
+        for o in itertools.product(*obox):
+            env = {"x": x, "y": y, "z": z, "o0": (lambda o=o: o[0]), "o1": (lambda o=o: o[1])}
+            va, vb = eval(a, {"__builtins__": {}}, env), eval(b, {"__builtins__": {}}, dict(env))
+            if ctx:
+                if bool(va) != bool(vb):
+                    return f"x={x} y={y} z={z} o0()={o[0]} o1()={o[1]}: truth value {bool(va)} vs {bool(vb)}"
+            elif va != vb or type(va) is not type(vb):
+                return f"x={x} y={y} z={z} o0()={o[0]} o1()={o[1]}: value {va!r} vs {vb!r}"
+    return None
+
+
+def sym_leaf_forms(n, atoms):
+    """all binary and/or trees with n leaves over the atoms, `not` on leaves only"""
+    if n == 1:
+        for a in atoms:
+            yield a
+            yield ("not", a)
+        return
+    for k in range(1, n):
+        for l in sym_leaf_forms(k, atoms):
+            for r in sym_leaf_forms(n - k, atoms):
+                yield ("and", [l, r])
+                yield ("or", [l, r])
+
+
+SYM_POOLS = {
+    "names": [("name", 0), ("name", 1), ("name", 2)],
+    "cmps": [("cmp", 0, "BGt", 1, False), ("cmp", 0, "BLe", 1, False), ("cmp", 0, "BEq", 2, False)],
+    "mixed": [("name", 0), ("cmp", 0, "BGt", 0, False), ("opq", 0)],
+}
+
+
+def sym_atom(rnd):
+    k = rnd.random()
+    if k < 0.35:
+        return ("name", rnd.randrange(3))
+    if k < 0.8:
+        return ("cmp", rnd.choice([0, 0, 1]), rnd.choice(BOPS), rnd.choice([-1, 0, 1, 2, 3]), rnd.random() < 0.2)
+    if k < 0.93:
+        return ("opq", rnd.randrange(2))
+    return ("const", rnd.random() < 0.5)
+
+
+def sym_rand(rnd, palette, depth=0):
+    """a random formula over a palette of at most 5 atoms (sympy's minimisation is exponential in the atoms)"""
+    r = rnd.random()
+    if depth >= 3 or r < 0.42:
+        return rnd.choice(palette)
+    if r < 0.55:
+        return ("not", sym_rand(rnd, palette, depth + 1))
+    return (rnd.choice(["and", "or"]), [sym_rand(rnd, palette, depth + 1) for _ in range(rnd.randint(2, 4))])
+
+
+def sym_cases(tier, rnd):
+    """(formula, shape) list: exhaustive small scope first (seed independent), then seeded random"""
+    cases = []
+    stride4 = 32 if tier == "quick" else 1
+    k = 0
+    for pool, atoms in SYM_POOLS.items():
+        shapes = {"names": ["if", "if", "not", "assign"], "cmps": ["assign", "if", "return", "ifexp"],
+                  "mixed": ["if", "assign", "comp", "call"]}[pool]
+        for n in (2, 3, 4):
+            for f in sym_leaf_forms(n, atoms):
+                k += 1
+                if n < 4 or k % stride4 == 0:
+                    cases.append((f, shapes[k % len(shapes)]))
+    n_exh = len(cases)
+    shapes = sorted(SYM_SHAPES)
+    for _ in range(900 if tier == "quick" else 20000):
+        palette = [sym_atom(rnd) for _ in range(rnd.randint(2, 5))]
+        f = sym_rand(rnd, palette)
+        while f[0] not in ("and", "or", "not"):
+            f = sym_rand(rnd, palette)
+        cases.append((f, rnd.choice(shapes)))
+    # n-ary and duplicated-operand forms sympy collapses
+    for a, b in itertools.permutations(SYM_POOLS["names"] + SYM_POOLS["cmps"][:2], 2):
+        cases.append((("and", [a, b, a]), "if"))
+        cases.append((("or", [a, ("and", [a, b]), b]), "assign"))
+        cases.append((("or", [("and", [a, b]), ("and", [a, ("not", b)])]), "ifexp"))
+        cases.append((("or", [("and", [a, b]), ("and", [a, ("not", b)])]), "assign"))
+    return cases, n_exh
+
+
+_SYM_MODS = None
+
+
+def _sym_eval(jobs):
+    """worker: the real rule on every case; every (node, replacement) it yields -> (input term, output term,
+    truth-context flag by the harness's own reading) + the CPython oracle on the pair"""
+    mods = _SYM_MODS
+    core, sm = mods["core"], mods["symbolic_math"]
+    out, memo = [], {}
+    for f, shape in jobs:
+        tmpl, _ = SYM_SHAPES[shape]
+        source = tmpl.format(f=sf_text(f))
+        pairs, problems = [], []
+        try:
+            with common.quiet():
+                root = core.parse(source)
+                tt = truth_tested(root)
+                ys = [(it[0], it[1]) for it in sm.simplify_boolean_expressions_symmath._fix_func(source)]
+            for node, repl in ys:
+                try:
+                    fi, fo = sf_of_ast(node), sf_of_ast(repl)
+                except ValueError as e:
+                    problems.append(f"{e}")
+                    continue
+                ctx = id(node) in tt
+                key = (sf_text(fi), sf_text(fo), ctx)
+                if key not in memo:
+                    memo[key] = sym_pair_fails(fi, fo, ctx)
+                pairs.append((fi, fo, ctx, memo[key]))
+        except Exception as e:  # noqa
+            problems.append(f"crash {type(e).__name__}: {e}")
+        out.append((f, shape, source, pairs, problems))
+    return out
+
+
+def check_symmath(run, mods, rnd, wd, hist, distinct):
+    """every output of the real sympy rule is validated by the verified checkers of BoolEquivModel.v"""
+    global _SYM_MODS
+    _SYM_MODS = mods
+    cases, n_exh = sym_cases(run.tier, rnd)
+    nw = 4 if run.tier == "quick" else 8
+    size = max(100, len(cases) // (nw * 6))
+    import multiprocessing
+    with multiprocessing.get_context("fork").Pool(nw) as pool:
+        parts = pool.map(_sym_eval, [cases[k:k + size] for k in range(0, len(cases), size)])
+    pairs, failures, seen, n_yields = [], [], set(), 0
+    for part in parts:
+        for f, shape, source, ps_, problems in part:
+            hist["symmath:" + ("yield" if ps_ else "none")] += 1
+            for pr in problems:
+                failures.append(("simplify_boolean_expressions_symmath", {"source": source, "output": None, "problem": pr}))
+            for fi, fo, ctx, pyfail in ps_:
+                n_yields += 1
+                key = (sf_text(fi), sf_text(fo), ctx)
+                if key in seen:
+                    continue
+                seen.add(key)
+                pairs.append((fi, fo, ctx, pyfail, source))
+                distinct.add("sym:" + " => ".join(key[:2]) + (" [truth]" if ctx else " [value]"))
+                hist["symmath:pair:" + ("truth-ctx" if ctx else "value-ctx")] += 1
+    files, shards = [], []
+    SH = 800
+    for k in range(0, len(pairs), SH):
+        shard = pairs[k:k + SH]
+        body = ";\n ".join(f"({sf_coq(fi)}, {sf_coq(fo)}, {gbool(ctx)})" for (fi, fo, ctx, _, _) in shard)
+        p = wd / f"symmath_{k // SH}.v"
+        p.write_text("From Coq Require Import List ZArith.\nImport ListNotations.\nOpen Scope Z_scope.\n"
+                     "Require Import Pyrefact.Base Pyrefact.BoundModel Pyrefact.BoolEquivModel.\n"
+                     f"Definition cases : list (form * form * bool) := [\n {body}\n].\n"
+                     "Eval vm_compute in (bad_idx sym_case_ok cases).\n")
+        files.append(p); shards.append([("symmath",) + it for it in shard])
+    # reference semantics veval vs CPython: value of a sample of the formulas at a few valuations
+    sem = []
+    for f, _ in cases[5::9][:800]:
+        code = compile(sf_text(f), "<f>", "eval")
+        for (xs, o) in (((1, 0, 2), (True, False)), ((0, 3, -1), (False, True)), ((2, 2, 0), (True, True))):
+            env = {"x": xs[0], "y": xs[1], "z": xs[2], "o0": (lambda o=o: o[0]), "o1": (lambda o=o: o[1])}
+            sem.append((f, xs, [i for i in range(2) if o[i]], eval(code, {"__builtins__": {}}, env)))
+    for k in range(0, len(sem), 800):
+        shard = sem[k:k + 800]
+        body = ";\n ".join(f"({sf_coq(f)}, [(0%nat, {gz(xs[0])}); (1%nat, {gz(xs[1])}); (2%nat, {gz(xs[2])})], "
+                           f"{glist(s, lambda i: str(i) + chr(37) + chr(110)+chr(97)+chr(116))}, {gval(v)})" for (f, xs, s, v) in shard)
+        p = wd / f"veval_{k // 800}.v"
+        p.write_text("From Coq Require Import List ZArith.\nImport ListNotations.\nOpen Scope Z_scope.\n"
+                     "Require Import Pyrefact.Base Pyrefact.BoundModel Pyrefact.BoolEquivModel.\n"
+                     f"Definition cases : list (form * list (nat * Z) * list nat * val) := [\n {body}\n].\n"
+                     "Eval vm_compute in (bad_idx veval_case_ok cases).\n")
+        files.append(p); shards.append([("veval", sf_text(f), xs, s, repr(v)) for (f, xs, s, v) in shard])
+    # the CPython oracle on every pair (independent of the checker), and the rule's text result on a shard
+    for fi, fo, ctx, pyfail, source in pairs:
+        if pyfail:
+            failures.append(("simplify_boolean_expressions_symmath",
+                             {"source": source, "input": sf_text(fi), "output": sf_text(fo), "truth_context": ctx,
+                              "problem": pyfail}))
+    stats = {"cases": len(cases), "exhaustive_small_scope": n_exh, "yields": n_yields, "distinct_pairs_validated": len(pairs),
+             "veval_cases": len(sem), "samples": [cases[3][0] and SYM_SHAPES[cases[3][1]][0].format(f=sf_text(cases[3][0])),
+                                                  SYM_SHAPES[cases[-1][1]][0].format(f=sf_text(cases[-1][0]))]}
+    return files, shards, failures, stats
+
+
 def program_property_fails(prog: str, new: str) -> str | None:
     """f(n, m, p, y) before/after format_code: same value (same order) for every n in the box"""
     if new == prog:
@@ -885,6 +1209,12 @@ def check(run: common.Run):
     rstats["python_wall_s"] = round(time.time() - t_range, 1)
     files += rfiles; shards += rshards
 
+    # ---- simplify_boolean_expressions_symmath (sympy): translation validation
+    t_sym = time.time()
+    sfiles, sshards, sfailures, sstats = check_symmath(run, mods, rnd, wd, hist, distinct)
+    sstats["python_wall_s"] = round(time.time() - t_sym, 1)
+    files += sfiles; shards += sshards
+
     results = common.run_case_files(files)
     disagreements = []
     for p, shard in zip(files, shards):
@@ -917,7 +1247,7 @@ def check(run: common.Run):
             if pr:
                 failures.append(("remove_redundant_boolop_values", {"source": src, "problem": pr}))
     sum_viol = [s for s in sums if s["value"] != s["python"]]
-    failures += rfailures
+    failures += rfailures + sfailures
 
     # ---- known findings
     from . import findings
@@ -972,10 +1302,10 @@ def check(run: common.Run):
               "2-argument forms); seeded random 1-3 `if`s of nested and-trees. Non-trivial = the rule "
               "yields a rewrite; distinct by source text."),
         samples=[items[0][3], items[n_pairs + 3][3], items[-1][3], c_text(nitems[-1][0]), ritems[-1][3],
-                 sums[5]["source"]] + rstats.pop("samples"),
+                 sums[5]["source"]] + rstats.pop("samples") + sstats.pop("samples"),
         exhaustive=False, exhaustive_pairs=n_pairs, histogram=dict(hist),
         correspondence_disagreements=len(disagreements), property_oracle_failures=len(failures),
-        sum_cases_outside_model=len(sum_unrepresentable), constrained_range=rstats,
+        sum_cases_outside_model=len(sum_unrepresentable), constrained_range=rstats, symmath=sstats,
         unmodelled=["symbolic_math.simplify_boolean_expressions_symmath (sympy)", "symbolic_math._integrate_over (sympy)",
                     "simplify_constrained_range: the template walk that selects comprehensions (single generator, "
                     "Name target, range call without keywords) and the rewrite machinery that applies the yields "
